@@ -569,6 +569,21 @@ def crash_sweep_sessions(tree, seed, tier):
                                  "toolchain": {"a": ["g++", "c++14"]}, "probe": {"include_order": None, "api": []}})
                 out.append({"seed": seed, "run": "crash-%d" % n, "hashseed": hs, "session": invs})
                 n += 1
+    # ... and crashes placed right after the tool's own files reach the disk (dropped when the
+    # tool writes none, as the unchanged one does): evenly spaced steps seldom hit the short
+    # window between a flush in the middle of a file and its close
+    for sel in (big, small):
+        for j in (range(6) if tier == "quick" else range(24)):
+            for delay, op in ((1, "kill"), (40, "powerloss")):
+                full = dict({"main_files": [], "version_id": "crash-sweep", "opt_order": ["units", "constants", "noio", "version"]}, **sel)
+                env = {"listdir": {UNITS_DIR: {"shuffle": rng.randrange(1 << 30)}, CONSTANTS_DIR: {"shuffle": rng.randrange(1 << 30)}}, "listdir_default": "sorted", "extra_entries": {}, "git": "ok:crash-sweep", "stdout_mode": "block", "stdout_bufsize": 4096, "crlf": False, "git_repo": "tracked", "clock": ["2026-09-26T12:00:00"]}
+                hs = HASHSEEDS[n % len(HASHSEEDS)]
+                invs = []
+                for k in range(3):
+                    invs.append({"seed": seed, "run": "crash-%d/%d" % (n, k), "hashseed": hs, "selection": dict(full), "env": dict(env), "faults": [{"op": op, "after_own_write": j, "delay": delay, "permille": 500}] if k == 0 else [],
+                                 "toolchain": {"a": ["g++", "c++14"]}, "probe": {"include_order": None, "api": []}})
+                out.append({"seed": seed, "run": "crash-%d" % n, "hashseed": hs, "session": invs})
+                n += 1
     return out
 
 
